@@ -32,6 +32,12 @@ class Gen:
         self.pool = {}      # txid -> input names
         self.spent = {}
         self.nlabel = 0
+        self.last_gt = True
+        self.gap_p = 0.3
+        self.fee_choices = [1, 2, 7, 50]
+        self.small_out_p = 0.0
+        self.hb = 100
+        self.node_key = None
         self.chain = ["b1"]
         self.snap = {"b1": (dict(self.outs), 1, {})}
         self.orphaned = {}   # outputs that existed only on an abandoned branch
@@ -60,7 +66,10 @@ class Gen:
         tid = "t%d" % self.ntx
         nouts = self.rnd.choice([1, 2, 2, 3])
         outs = [[self.rnd.choice(self.keys), 0] for _ in range(nouts)]
-        fee = self.rnd.choice([1, 2, 7, 50]) if self.rnd.random() < fee_p else 0
+        fee = self.rnd.choice(self.fee_choices) if self.rnd.random() < fee_p else 0
+        if self.small_out_p and self.rnd.random() < self.small_out_p and nouts >= 2:
+            # a tiny explicit output that will be too small to pay its rebroadcast fee
+            outs[0][1] = self.rnd.choice([1, 20, 150, 400])
         path = []
         if fee and self.rnd.random() < path_p:
             path = [owner, "c"] if self.rnd.random() < 0.6 else [owner, self.rnd.choice([k for k in self.keys if k != owner] or [owner]), "c"]
@@ -84,7 +93,16 @@ class Gen:
                     self.outs["atr:%s@%s.0" % (n, label)] = (o, h)
 
     def gt_flag(self, h):
-        return h >= 3 or self.rnd.random() < 0.5
+        # tickets most of the time, with single gaps (a gap is what defers a payout to the block after next);
+        # never two gaps in a row, so that the ticket density rule is met
+        if h < 3:
+            g = self.rnd.random() < 0.5
+        elif self.last_gt and self.rnd.random() < self.gap_p:
+            g = False
+        else:
+            g = True
+        self.last_gt = g
+        return g
 
     def good_block(self, parent=None, label=None, tag="good"):
         h = self.h + 1
@@ -120,6 +138,7 @@ class Gen:
         d = self.rnd.randint(1, min(3, len(self.chain) - 2))
         fork = self.chain[-1 - d]
         old_outs = dict(self.outs)
+        old_h, old_spent, old_chain = self.h, dict(self.spent), list(self.chain)
         outs, h, spent = self.snap[fork]
         self.outs, self.h, self.spent = dict(outs), h, dict(spent)
         for n, v in old_outs.items():
@@ -128,9 +147,21 @@ class Gen:
         self.chain = self.chain[:len(self.chain) - d]
         self.pool = {}   # keep the model simple: pooled transactions are not tracked across a reorg
         parent = fork
+        poison = self.rnd.random() < 0.3 and self.spent
         for i in range(d + 1):
             self.nlabel += 1
             lab = "s%d" % self.nlabel
+            if poison and i >= 1:
+                # the competing branch carries a block spending an output that was already spent below the
+                # fork point: the reorganisation must fail and leave everything as it was
+                n = self.rnd.choice(list(self.spent.keys()))
+                self.ntx += 1
+                t = dict(id="t%d" % self.ntx, signer=self.spent[n][0], ins=[n], outs=[[self.rnd.choice(self.keys), 0]], fee=0, path=[])
+                self.steps.append(dict(op="block", label=lab, parent=parent, gt=True, txs=[t], tag="bad:fork_spends_spent_output", gap=2))
+                # the node stays on (or returns to) its old chain: restore the generator's view of it
+                self.outs, self.h, self.spent = dict(old_outs), old_h, dict(old_spent)
+                self.chain = old_chain
+                return True
             if not self.good_block(parent=parent, label=lab, tag="fork"):
                 return True
             parent = lab
@@ -245,14 +276,88 @@ class Gen:
                     self.submit()
             else:
                 self.good_block()
-        return dict(g=self.g, keys=len(self.keys), issuance=self.issuance, node_key=node_key or self.keys[0],
-                    replica=True, steps=self.steps)
+        return dict(g=self.g, hb=self.hb, keys=len(self.keys), issuance=self.issuance,
+                    node_key=node_key or self.node_key or self.keys[0], replica=True, steps=self.steps)
+
+
+def dusty_scenario(rnd):
+    """high fees (so that the average fee per byte becomes non-zero) and tiny outputs that reach the
+    window edge unspent: rebroadcast fees, dust collection, treasury payouts"""
+    g = rnd.choice([3, 3, 4])
+    gen = Gen(rnd, g, 2)
+    gen.issuance = [[rnd.choice(gen.keys), rnd.choice([200000, 500000, 1000000])] for _ in range(rnd.randint(7, 10))]
+    gen.outs = {"g%d" % i: (k, 1) for i, (k, a) in enumerate(gen.issuance)}
+    gen.snap = {"b1": (dict(gen.outs), 1, {})}
+    gen.fee_choices = [3000, 6000, 12000, 25000]
+    gen.small_out_p = 0.5
+    return gen.scenario(rnd.randint(2 * g + 3, 3 * g + 5), bad_p=rnd.choice([0.0, 0.1]), pool_p=0.0,
+                        reorg_p=rnd.choice([0.0, 0.1]))
+
+
+def work_scenario(rnd):
+    """long heartbeat, fees routed to the node's own key, bundling sooner than two heartbeats after the
+    parent (routing work needed), conflicting peer blocks that invalidate pooled routed transactions"""
+    g = rnd.choice([6, 10])
+    gen = Gen(rnd, g, 3)
+    gen.hb = 10000
+    gen.node_key = "k1"
+    gen.issuance = [[rnd.choice(gen.keys), rnd.choice([1000000, 3000000])] for _ in range(10)]
+    gen.outs = {"g%d" % i: (k, 1) for i, (k, a) in enumerate(gen.issuance)}
+    gen.snap = {"b1": (dict(gen.outs), 1, {})}
+    for _ in range(rnd.randint(1, 3)):
+        gen.good_block()
+    for _round in range(rnd.randint(1, 3)):
+        h = gen.h + 1
+        # routed, fee paying transactions for the node
+        routed = []
+        for _ in range(rnd.randint(1, 3)):
+            t = gen.newtx(h, fee_p=0.0, path_p=0.0, two_in_p=0.0)
+            if not t:
+                break
+            t["fee"] = rnd.choice([2000, 6000, 9000, 20000, 60000])
+            via = rnd.choice([[t["signer"], "k1"], [t["signer"], "k2" if t["signer"] != "k2" else "k3", "k1"]])
+            t["path"] = [p for i, p in enumerate(via) if i == 0 or p != via[i - 1]]
+            if len(t["path"]) < 2:
+                t["path"] = []
+            gen.steps.append(dict(op="submit", tx=t, tag="good"))
+            gen.pool[t["id"]] = t["ins"]
+            routed.append(t)
+        r = rnd.random()
+        if routed and r < 0.5:
+            # a peer's block spends the input of one routed transaction in another way
+            victim = rnd.choice(routed)
+            gen.ntx += 1
+            t2 = dict(id="t%d" % gen.ntx, signer=victim["signer"], ins=list(victim["ins"]),
+                      outs=[[rnd.choice(gen.keys), 0]], fee=0, path=[])
+            label = "b%d" % h
+            gen.steps.append(dict(op="block", label=label, gt=True, txs=[t2], tag="conflict", gap=2))
+            gen.apply(t2, h)
+            gen.rebroadcast(h, label)
+            gen.h = h
+            gen.chain.append(label)
+            gen.snap[label] = (dict(gen.outs), h, dict(gen.spent))
+            gen.prune_pool()
+            # something unrouted so that the pool is not empty
+            t3 = gen.newtx(gen.h + 1, fee_p=0.0, path_p=0.0)
+            if t3:
+                gen.steps.append(dict(op="submit", tx=t3, tag="good"))
+                gen.pool[t3["id"]] = t3["ins"]
+        # the node tries to produce early (one heartbeat after the parent) and, later, late
+        gen.steps.append(dict(op="bundle", label="n%d_%d" % (gen.h + 1, _round), gt=True, gap=1, tag="bundle-early"))
+        gen.steps.append(dict(op="bundle", label="m%d_%d" % (gen.h + 1, _round), gt=True, gap=3, tag="bundle-late"))
+        # whatever happened, continue from the node's tip with peer blocks that do not depend on pooled outputs
+        gen.pool = {}
+    return dict(g=gen.g, hb=gen.hb, keys=len(gen.keys), issuance=gen.issuance, node_key="k1", replica=True, steps=gen.steps)
 
 
 def scenarios(seed, n, long_p=0.3):
     rnd = random.Random(seed)
     out = []
-    for i in range(n):
+    for i in range(n // 6):
+        out.append(dusty_scenario(rnd))
+    for i in range(n // 6):
+        out.append(work_scenario(rnd))
+    for i in range(n - 2 * (n // 6)):
         g = rnd.choice([3, 3, 4, 6])
         big = rnd.random() < 0.1
         gen = Gen(rnd, g, rnd.choice([2, 3]), big=big)
